@@ -35,9 +35,9 @@ Variable now : time.
 Variable ev : env.
 Hypothesis Htypes : env_types_ok ev.
 
-Lemma load_sig_id : forall ps s, load_sig now ev ps = Ok s -> sig_id s = psig_key ps.
+Lemma load_sig_id : forall lim ps s, load_sig now ev lim ps = Ok s -> sig_id s = psig_key ps.
 Proof.
-  intros [pent pkind psend pstart pattrs pbody] s H. cbn in H. bind_inv H.
+  intros lim [pent pkind psend pstart pattrs pbody] s H. cbn in H. bind_inv H.
   destruct pent as [e|]; [|discriminate]. cbn in Ha. inversion Ha; subst a; clear Ha.
   unfold psig_key; cbn.
   destruct pbody as [|t u|en|psigs fixed count gsize pgroups]; try discriminate.
@@ -45,7 +45,8 @@ Proof.
     destruct (_ && _); [discriminate|]. bind_inv H. inversion H; reflexivity.
   - destruct (negb _); [discriminate|]. destruct (find_key enum_key en _); [|discriminate].
     bind_inv H. inversion H; reflexivity.
-  - destruct (negb _); [discriminate|]. destruct (count <? 0); [discriminate|]. destruct (count =? 0); [discriminate|].
+  - destruct (negb _); [discriminate|]. destruct (gsize >? lim); [discriminate|]. destruct (negb _); [discriminate|].
+    destruct (count <? 0); [discriminate|]. destruct (count =? 0); [discriminate|].
     destruct (gsize <? 0); [discriminate|]. destruct (gsize =? 0); [discriminate|].
     bind_inv H. bind_inv H. bind_inv H. inversion H; reflexivity.
 Qed.
@@ -79,10 +80,10 @@ Proof.
     rewrite E, sig_okb_set_pos. auto.
 Qed.
 
-Theorem load_sig_ok : forall ps s,
-  load_sig now ev ps = Ok s -> sig_okb ev s = true /\ 1 <= sig_size ev s.
+Theorem load_sig_ok : forall ps lim s,
+  load_sig now ev lim ps = Ok s -> sig_okb ev s = true /\ 1 <= sig_size ev s.
 Proof.
-  induction ps using psig_ind'; intros s Hl.
+  induction ps using psig_ind'; intros lim s Hl.
   - (* standard / enum / no body *)
     cbn in Hl. bind_inv Hl.
     destruct b as [|t u|en|? ? ? ? ?]; try discriminate; try contradiction.
@@ -101,6 +102,7 @@ Proof.
   - (* multiplexer *)
     cbn in Hl. apply bind_ok in Hl. destruct Hl as (ent & Hent & Hl).
     destruct (negb _); [discriminate|].
+    destruct (z >? lim); [discriminate|]. destruct (negb (Z.of_nat (List.length groups) =? c)); [discriminate|].
     destruct (c <? 0) eqn:E1; [discriminate|]. destruct (c =? 0) eqn:E2; [discriminate|].
     destruct (z <? 0) eqn:E3; [discriminate|]. destruct (z =? 0) eqn:E4; [discriminate|].
     apply Z.ltb_ge in E1, E3. apply Z.eqb_neq in E2, E4.
@@ -112,12 +114,12 @@ Proof.
     pose proof (mapM_ok _ _ _ Hchildren) as Hch.
     assert (Hchild : forall c0, In c0 children -> sig_okb ev c0 = true /\ 1 <= sig_size ev c0).
     { intros c0 Hc0. rewrite Forall_forall in H.
-      assert (G : forall l l', Forall2 (fun a b => load_sig now ev a = Ok b) l l' ->
+      assert (G : forall l l', Forall2 (fun a b => load_sig now ev z a = Ok b) l l' ->
                                (forall x, In x l -> In x sigs) -> In c0 l' ->
                                sig_okb ev c0 = true /\ 1 <= sig_size ev c0).
       { induction 1 as [|x y l l' Hxy HF IHF]; intros Hsub Hin; [contradiction|].
         destruct Hin as [<-|Hin].
-        - apply (H x); auto. apply Hsub. apply in_eq.
+        - apply (H x (Hsub x (in_eq _ _)) z); auto.
         - apply IHF; auto. intros; apply Hsub; now right. }
       apply (G _ _ Hch); auto. intros x Hx. eapply select_In; eauto. }
     assert (Hnd : NoDup (map sig_id children)).
